@@ -187,6 +187,9 @@ def gen_response(rng, allow=None, position='any'):
             framing = 'head+te'
     elif framing == 'head+cl':
         fields.append(('Content-Length', str(rng.choice([0, 10, 4000]))))
+    if rng.random() < 0.04:
+        # one header line of several KiB (a large cookie, a signed token): far below the header block limit
+        fields.insert(1, ('X-Long', 'v' * rng.choice([4000, 4090, 4096, 4200, 6000])))
     linger = False
     if then == 'keep' and framing in ('length', 'chunked', 'chunked-case', 'length0', 'x-gzip') and rng.random() < 0.12:
         # the server announces that it will close the connection but lingers: the client must not use it again
